@@ -177,6 +177,10 @@ def st_flag_spec(draw):
     if shape == "skipped" and nbits >= 2:
         drop = draw(st.integers(0, nbits - 2))
         bits = [b for b in bits if b != drop]
+    # one flag class in three has its top bit far away from the others (values beyond 32 / 53 / 64 bits)
+    high = draw(st.sampled_from([None, None, None, None, 31, 52, 53, 54, 63, 64, 100]))
+    if high is not None and len(bits) >= 2:
+        bits[-1] = high
     it = iter(names)
     if shape == "multibit_only" and nbits >= 3:
         # bits 1 and 2 are only reachable through one multi-bit member
